@@ -115,6 +115,8 @@ SyncViol(e) ==
          (IF Compat2 /\ ~e.done THEN {"C07_late_joiner_not_matched_within_bound"} ELSE {})
          \cup (IF ~Compat2 /\ e.rcur > 0 THEN {"C07_matched_although_incompatible"} ELSE {})
     [] e.phase = "unmatch" -> IF ~e.done THEN {"C07_delete_not_observed_as_unmatch_" \o cfg.del} ELSE {}
+    \* an endpoint created after the deletion of its only counterpart was observed: nothing announced is left to match
+    [] e.phase = "post" -> IF e.wcur > 0 THEN {"C07_matched_with_deleted_endpoint"} ELSE {}
     [] e.phase = "lost" -> IF ~e.done THEN {"C07_silent_participant_not_dropped_within_bound"} ELSE {}
     [] e.phase = "back" -> IF ~e.done THEN {"C07_not_rematched_after_participant_reappeared"} ELSE {}
     [] OTHER -> {}
